@@ -6,6 +6,8 @@ normalisation exactly), builds the Recording / Clip with the public constructors
 lengths, frames as rows of integers, coordinates as exact limb numbers (first coordinate, exact differences to it,
 advertised step), and the boundary flags of DESIGN 2.5 (signed distance of start*samplerate and duration*samplerate,
 computed exactly on the doubles actually passed, from the nearest integer, in units of 2^-30 relative).
+After the last call of a resamp / spec case the binder looks again at every array produced earlier in the case (the loaded
+source; in derived-twice cases also the result of the preliminary resample) and encodes its time axis the same way ("reobs").
 It computes no expected value and takes no decision.
 """
 from __future__ import annotations
@@ -30,8 +32,9 @@ ENUM = {
 POOL = 12
 CHUNK = 1500
 RULE = ("every call of the TLA+ enumeration (all clips [s,e] on the quarter-sample lattice incl. past EOF x file shapes x "
-        "samplerate/time-expansion settings; all window/hop pairs x sources; sources x target rates) plus random calls on larger "
-        "universes; non-trivial = an array with at least two coordinates was produced (clip: at least one frame)")
+        "samplerate/time-expansion settings; all window/hop pairs x sources; sources x target rates; derived-twice sequences "
+        "resample-then-resample / resample-then-spectrogram on one loaded array, the source re-observed after the calls) plus "
+        "random calls on larger universes; non-trivial = an array with at least two coordinates was produced (clip: at least one frame)")
 TRUSTED_BASE = ["checks/c15.py (writes the WAV, builds Recording/Clip, calls the API, encodes rows/coordinates as exact limb numbers, "
                 "boundary-distance flags by fractions.Fraction on the doubles passed)",
                 "soundfile/libsndfile write path (PCM_16 / FLOAT samples k/32768 are exact)"]
@@ -163,7 +166,8 @@ def _clip(case, rec):
 
 
 def _blank():
-    return {"raised": "", "n": 0, "rows": [], "rec_rows": [], "bs": 0, "bd": 0, "src_ok": True, "src_n": 0, "axes": []}
+    return {"raised": "", "n": 0, "rows": [], "rec_rows": [], "bs": 0, "bd": 0, "src_ok": True, "src_n": 0, "axes": [],
+            "pre_raised": "", "reobs": []}
 
 
 def _flags(out, clip, sr):
@@ -224,25 +228,46 @@ def execute(case):
         return out
     out["src_n"] = int(src.sizes["time"])
     ref0 = src.time.values[0] if src.sizes["time"] else None
+    # derived-twice cases: resample the source to case["pre"] first and set the result aside; the case's operation
+    # is then applied to the SAME loaded array
+    first = None
+    if case.get("pre", 0):
+        try:
+            first = resample(src, case["pre"])
+        except Exception as ex:
+            out["pre_raised"] = type(ex).__name__
     try:
         if kind == "resamp":
             res = resample(src, case["target"])
         else:
             res = compute_spectrogram(src, window_size=case["w"] / case["tden"], hop_size=case["h"] / case["tden"])
+        out["n"] = int(res.sizes["time"])
+        out["axes"] = [_axis(res.time.values, res.time.attrs, ref0)]
+        if kind == "spec":
+            out["axes"].append(_axis(res.frequency.values, res.frequency.attrs))
     except Exception as ex:
         out["raised"] = type(ex).__name__
-        return out
-    out["n"] = int(res.sizes["time"])
-    out["axes"] = [_axis(res.time.values, res.time.attrs, ref0)]
-    if kind == "spec":
-        out["axes"].append(_axis(res.frequency.values, res.frequency.attrs))
+        out["n"] = 0
+        out["axes"] = []
+    # after the last call: look again at every array produced earlier (same encoding as when it was produced)
+    out["reobs"] = [dict(_axis(src.time.values, src.time.attrs), role="source")]
+    if first is not None and first.sizes["time"] <= 4000:
+        out["reobs"].append(dict(_axis(first.time.values, first.time.attrs, ref0), role="derived"))
     return out
 
 
 # ----------------------------------------------------------------------------- larger universes (random, seeded)
-def _case(kind, fr, te, tden, ch, n, s=0, e=0, src="clip", w=0, h=0, target=0, fmt="PCM_16"):
+def _case(kind, fr, te, tden, ch, n, s=0, e=0, src="clip", w=0, h=0, target=0, fmt="PCM_16", pre=0):
     return {"kind": kind, "fr": fr, "te": list(te), "tden": tden, "ch": ch, "N": n, "s": s, "e": e,
-            "src": src, "w": w, "h": h, "target": target, "fmt": fmt}
+            "src": src, "w": w, "h": h, "target": target, "pre": pre, "fmt": fmt}
+
+
+def _pre(rng, sr, n):
+    """Rate of the preliminary resample of a derived-twice case (0 = none); at most ~2000 output samples."""
+    if rng.random() < 0.6:
+        return 0
+    p = rng.choice([2 * sr, max(1, sr // 2), max(1, sr // 3), 3 * sr, rng.randrange(1, 2 * sr + 2), 8000, 22050, 16])
+    return p if (n + 8) * p <= 2000 * sr else 0
 
 
 # (file rate, time expansion): recording rate = fr * te is an integer
@@ -304,7 +329,7 @@ def random_cases(rng, tier):
         h = rng.choice([w, max(1, w // 2), max(1, w // 4), rng.randrange(1, w + 1), rng.randrange(1, w + 1)])
         if w * sr >= 2**30:
             continue
-        yield _case("spec", fr, te, tden, rng.choice([1, 2]), n, s, e, src=src, w=w, h=h)
+        yield _case("spec", fr, te, tden, rng.choice([1, 2]), n, s, e, src=src, w=w, h=h, pre=_pre(rng, sr, n))
     # the anticipated witness (DESIGN F13): 12.3 ms window, 4.1 ms hop at 22050 Hz, and relatives
     for fr, tden, w, h, n in [(22050, 10000, 123, 41, 22050), (44100, 10000, 100, 33, 30000), (8000, 1000, 10, 3, 4000),
                               (48000, 100000, 1234, 411, 24000)]:
@@ -322,7 +347,7 @@ def random_cases(rng, tier):
         target = rng.choice([sr, 2 * sr, max(1, sr // 2), max(1, sr // 3), rng.randrange(1, 3 * sr + 2), 8000, 22050, 44100, 16, 10])
         if (n + 8) * target > 2000 * sr or n * target >= 2**30:
             continue                                          # keep outputs below ~2000 samples and the spec's products below 2^31
-        yield _case("resamp", fr, te, tden, rng.choice([1, 2]), n, s, e, src=src, target=target)
+        yield _case("resamp", fr, te, tden, rng.choice([1, 2]), n, s, e, src=src, target=target, pre=_pre(rng, sr, n))
 
 
 def nontrivial(o):
@@ -352,7 +377,9 @@ MANIFEST = {
              "rate of the bounded universe (resample drift bounded; as-found counterexamples kept in spec/history), and prints each "
              "call as a case. The binder writes the WAV, calls the real functions and encodes frames as integers and coordinates as "
              "exact limb numbers; TLC validates every observation clause by clause (exact on dyadic units, boundary guard and 2.4e-10 "
-             "sample tolerance on stress units), plus random calls on larger universes."),
+             "sample tolerance on stress units), plus random calls on larger universes. After resample / compute_spectrogram the source "
+             "array (and, in derived-twice sequences on one loaded array, the first result) is re-observed and must still satisfy the "
+             "axis clauses (SourceUntouched/*; Impl action Reobserve, invariant ImplSourceTruthful)."),
     "note": ("trusted: TLC, the binder checks/c15.py (encoder + exact Fraction reductions), soundfile's write path; bounded-exhaustive "
              "lattice + seeded random sampling; numerical values of resampled audio / STFT are not judged; resample's output length is "
              "not pinned by the statement and not judged"),
